@@ -20,14 +20,17 @@ def _apply_world(root, st, cmds, mt_rank):
         if os.path.isdir(real) and not os.path.islink(real):
             if st[p]['kind'] != 'dir':
                 shutil.rmtree(real)
-        elif os.path.exists(real):
+        elif os.path.lexists(real):
             os.unlink(real)
     for p in sorted(st, key=len):
         real = root + p
         if p.endswith('.checksums') or p.endswith('/.zinoma'):
             continue
         ent = st[p]
-        if ent['kind'] == 'dir':
+        if ent['kind'] == 'link':
+            if os.path.isdir(os.path.dirname(real)):
+                os.symlink(root + ent['target'], real)
+        elif ent['kind'] == 'dir':
             os.makedirs(real, exist_ok=True)
         elif ent['kind'] == 'file':
             os.makedirs(os.path.dirname(real), exist_ok=True)
